@@ -119,13 +119,14 @@ func checkLHSJoint(t *vlib.T, r, c int) {
 	}
 	reals := []int{3, 0, 7, 5, 1, 6, 2, 4, 4, 1}
 	total, bad := 0, 0
+	drawsReported := false
 	odometer(K, nint, func(idx []int) {
 		src := &kindSeqSrc{aInt: aInt, aReal: aReal, ints: idx, reals: reals, kinds: &kinds}
 		batch := mat.NewDense(r, c, nil)
 		samplemv.LatinHypercube{Q: q, Src: src}.Sample(batch)
-		if src.ni != nint && bad == 0 {
-			bad++
-			rp.fail("harness", fmt.Sprint(idx), "LatinHypercube consumed %d integer draws, expected %d", src.ni, nint)
+		if src.ni != nint && !drawsReported {
+			drawsReported = true
+			rp.fail("LatinHypercube: one permutation of the rows per column", fmt.Sprint(idx), "%d integer draws were consumed; %d columns of %d rows need %d", src.ni, c, r, nint)
 		}
 		key := ""
 		for j := 0; j < c; j++ {
@@ -314,7 +315,7 @@ func checkMVRandReplay(t *vlib.T) {
 			d, _ := distmv.NewNormal(c.mu, c.sigma.sym(), newScript(K, idx...))
 			z := whiten(d.Rand(nil), 1)
 			for i := range z {
-				if !closeRA(z[i], want[i], 1e-10*cond, 1e-11*cond) && bad < 3 {
+				if !closeRA(math.Abs(z[i]), math.Abs(want[i]), 1e-10*cond, 1e-11*cond) && bad < 3 {
 					bad++
 					rp.fail("Normal.Rand: L^-1(x-mu) = normal answers", fmt.Sprintf("%s %v", c.name, idx), "component %d: %v want %v", i, z[i], want[i])
 				}
@@ -341,7 +342,7 @@ func checkMVRandReplay(t *vlib.T) {
 					zz[i] = v / l.a[i][i]
 				}
 				for i := range zz {
-					if !closeRA(zz[i], want[i], 1e-9*cond, 1e-10*cond) && bad < 3 {
+					if !closeRA(math.Abs(zz[i]), math.Abs(want[i]), 1e-9*cond, 1e-10*cond) && bad < 3 {
 						bad++
 						rp.fail("StudentsT.Rand: sqrt(u/nu) L^-1(x-mu) = normal answers", fmt.Sprintf("%s nu=%g %v", c.name, nu, idx), "component %d: %v want %v (u=%v)", i, zz[i], want[i], u)
 					}
@@ -402,24 +403,33 @@ func checkWishartReplay(t *vlib.T) {
 			c0 := distuv.ChiSquared{K: nu, Src: ref}.Rand()
 			c1 := distuv.ChiSquared{K: nu - 1, Src: ref}.Rand()
 			n01 := distuv.Normal{Mu: 0, Sigma: 1, Src: ref}.Rand()
-			tm := [2][2]float64{{math.Sqrt(c0), n01}, {0, math.Sqrt(c1)}}
 			u := [2][2]float64{{l.a[0][0], l.a[1][0]}, {0, l.a[1][1]}}
+			// (the sign of the normal variate is immaterial for the law: accept either)
+			ok := false
 			var tu [2][2]float64
-			for i := 0; i < 2; i++ {
-				for j := 0; j < 2; j++ {
-					for k := 0; k < 2; k++ {
-						tu[i][j] += tm[i][k] * u[k][j]
+			for _, sg := range []float64{1, -1} {
+				tm := [2][2]float64{{math.Sqrt(c0), sg * n01}, {0, math.Sqrt(c1)}}
+				tu = [2][2]float64{}
+				for i := 0; i < 2; i++ {
+					for j := 0; j < 2; j++ {
+						for k := 0; k < 2; k++ {
+							tu[i][j] += tm[i][k] * u[k][j]
+						}
 					}
 				}
+				all := true
+				for i := 0; i < 2; i++ {
+					for j := 0; j < 2; j++ {
+						if !closeRA(x.At(i, j), tu[0][i]*tu[0][j]+tu[1][i]*tu[1][j], 1e-12, 1e-300) {
+							all = false
+						}
+					}
+				}
+				ok = ok || all
 			}
-			for i := 0; i < 2; i++ {
-				for j := 0; j < 2; j++ {
-					want := tu[0][i]*tu[0][j] + tu[1][i]*tu[1][j]
-					if !closeRA(x.At(i, j), want, 1e-12, 1e-300) && bad < 3 {
-						bad++
-						rp.fail("Wishart.RandSymTo = Bartlett construction", fmt.Sprintf("nu=%g %v", nu, idx), "X[%d,%d]=%v want %v", i, j, x.At(i, j), want)
-					}
-				}
+			if !ok && bad < 3 {
+				bad++
+				rp.fail("Wishart.RandSymTo = Bartlett construction", fmt.Sprintf("nu=%g %v", nu, idx), "X=%v is not (TU)'(TU) with t00^2=%v t11^2=%v t01=+-%v", x.RawSymmetric().Data, c0, c1, n01)
 			}
 			total++
 		})
@@ -447,7 +457,7 @@ func checkUnitVectorReplay(t *vlib.T) {
 			}
 			nn = math.Sqrt(nn)
 			for i := range z {
-				if !closeRA(v.AtVec(i), z[i]/nn, 1e-14, 1e-300) && bad < 3 {
+				if !closeRA(math.Abs(v.AtVec(i)), math.Abs(z[i])/nn, 1e-14, 1e-300) && bad < 3 {
 					bad++
 					rp.fail("UnitVecTo = z/|z|", fmt.Sprintf("d=%d %v", d, idx), "component %d: %v want %v", i, v.AtVec(i), z[i]/nn)
 				}
